@@ -18,7 +18,7 @@ RULE = (
     "Fault enumeration in-process (synchronous process context, real worker loop / monitor loop / merging code): for 3 items every marking of the "
     "items as {ok, raise-before-touching, raise-after-updating} (3^n) x every schedule over 1..3 workers; for 4 and 5 items every marking x "
     "seed-sampled schedules; and every (schedule, item) at which the worker processing that item dies (uncaught BaseException -> non-zero exit "
-    "status), alone and combined with raising items; all with rotating cms/hh/hll argument combinations. Real spawned runs: a callback raising on "
+    "status), alone and combined with raising items; all with rotating cms/hh/hll argument combinations. Interleaved runs: the same faults with 7-30 items over 1-4 workers under a cooperative-thread context (bounded blocking queue, concurrent filler, seeded scheduler; a deadlock of all processes is a hang). Real spawned runs: a callback raising on "
     "one item and a worker calling os._exit(3) (quick: the os._exit run; thorough: both). Oracle: raising callbacks -> parallel_add returns, every "
     "item is delivered once, HyperLogLog registers equal the sequential sketch over ok + raise-after items (nothing else), n_added of cms/hh equals "
     "their multiplicity, n_records equals the sum of the returns of ok items only, C01/C03/C04/C06 bounds hold w.r.t. that stream; dead worker -> "
@@ -111,6 +111,37 @@ def _death_task(arg):
     return rec
 
 
+def _coop_task(arg):
+    """Faults under real interleavings (cooperative threads, bounded queue): many items, so that the filler is still
+    blocked on the full queue when a worker dies or a callback raises."""
+    seed, n_cases = arg
+    rec = common.Recorder()
+    cbs = combos()
+    rnd = random.Random(seed)
+    base = [it for it in mk_items(BASE_SPECS[3]) if isinstance(it, dict)]
+    for t in range(n_cases):
+        n = rnd.choice([7, 12, 16, 24, 30])
+        k = rnd.choice([1, 2, 2, 3, 4])
+        items = []
+        for i in range(n):
+            it = dict(base[i % len(base)])
+            it["idx"] = i
+            it["mode"] = rnd.choice(["ok"] * 6 + ["raise_before", "raise_after"])
+            items.append(it)
+        death = t % 2 == 0
+        if death:
+            items[rnd.randrange(0, min(n, 4))]["mode"] = "die"
+        case = {"items": items, "n_workers": k, "schedule": {}, "combo": cbs[(t * 7 + 3) % len(cbs)], "items_as": "list", "cb": "plain", "ctx": "coop",
+                "sched_seed": rnd.getrandbits(32), "policy": rnd.choice(["random", "parent_last", "parent_first", "filler_slow", "low_worker_first"])}
+        try:
+            obs = run_case(case)
+        except Violation as v:
+            rec.violation(case, v.msg, v.signature)
+            return rec
+        rec.case(case, True, ["interleaved_death_runs" if death else "interleaved_raising_runs"] + (["worker_died"] if obs.get("dying") else []))
+    return rec
+
+
 REAL_SCRIPT = r"""
 import json, os, sys, warnings
 warnings.filterwarnings("ignore")
@@ -189,6 +220,7 @@ def run(tier, seed, rec):
     if not quick:
         dj += [(4, k, s, 8) for k in (2, 3) for s in range(8)]
     common.pool_merge(_death_task, dj, rec)
+    common.pool_merge(_coop_task, [(common.derive_seed(seed, "C19-coop", i), 12 if quick else 120) for i in range(16)], rec)
     if not rec.violations:
         rec.exhaustive.append("3 items: all 27 markings x all schedules over 1..3 workers; every (schedule, victim item) death for 3 items over 1..3 workers")
     for h in real:
